@@ -6,6 +6,7 @@ A sanitizer / interpreter report is a violation of the property whose workload w
 only if the report points into the repository under test (its source path appears in the
 report); a report entirely inside the harness is a harness error (inconclusive)."""
 import json
+import hashlib
 import os
 import re
 import shutil
@@ -114,7 +115,8 @@ def run_shards(C, cmd_for, prop, tier, leg, shards, timeout):
     """run `shards` processes in parallel; cmd_for(i, out_dir) -> (cmd, env)"""
     ods = []
     for i in range(shards):
-        d = os.path.join(C.VERIF, "run", "out", f"{prop}-{tier}-{leg}-{C.SEED}-s{i}")
+        tag = "" if C.REPO == "/repo" else "-" + hashlib.sha1(C.REPO.encode()).hexdigest()[:10]
+        d = os.path.join(C.VERIF, "run", "out", f"{prop}-{tier}-{leg}-{C.SEED}{tag}-s{i}")
         shutil.rmtree(d, ignore_errors=True)
         os.makedirs(d)
         ods.append(d)
